@@ -19,7 +19,8 @@ SPEC = {
         ("_match_states(complete successor generation per live predecessor: foreach rule)", 'match_states', r'^(cover:|select:|insert:)'),
         ("_create_start_nodes(one first() per spatial-query tuple, arguments unchanged, every candidate filed once)", 'start_nodes', r'^start:'),
         ("_build_node_path(final entry = most probable live entry; loop invariant over a column of arbitrary size)", 'final_choice', r'.'),
-        ("match('the longest prefix some admissible walk can explain': the stop rule - previous column without a live entry - is evaluated for EVERY observation in EVERY call, also when a matched trace is continued; the result is built from the column before the stop)", 'match', r'^(loop:(runs-over|early-stop|continues)|result:)')],
+        ("match('the longest prefix some admissible walk can explain': the stop rule - previous column without a live entry - is evaluated for EVERY observation in EVERY call, also when a matched trace is continued; the result is built from the column before the stop)", 'match', r'^(loop:(runs-over|early-stop|continues)|result:)'),
+        ("neighbour queries of the in-memory map are COMPLETE against the abstract view of the graph (every listed node with a location is returned, one edge per listed neighbour of the end node / per declared link): no walk of the graph is withheld from the search", 'inmem_nbrs', r'(^nbrs:complete|^enbrs:complete|^nbrs:iterates|no-raise)')],
     'bounded': [
         ('all-walks-optimum', suites.case_C01, 1500, 200000, RULE + '; ' + 'non-trivial = at least 2 observations explainable and at least 2 edges; emitting-only, no width pruning, avoid_goingback off', 'graphs <= 5 nodes, traces <= 4 observations (enumeration is exponential)')],
 }
